@@ -270,6 +270,8 @@ def check(ctx: Ctx) -> None:
               construct="loop continuation flag is not tied to `a remainder exists`", message="", file=fi.file, node=loop)
 
     # --- SHORTEN
+    from .c06 import filter_rules        # "fragments may only shrink" rests on the do_not_extend filter of quantise_note_lengths
+    filter_rules(ctx)
     qn = [c for c in ast.walk(track_loop) if isinstance(c, ast.Call) and call_method(c)[1] == "quantise_note_lengths"]
     for c in qn:
         d = kwarg(c, "do_not_extend")
